@@ -162,7 +162,7 @@ func (ks *KeyStorage) getKey(slotID string, slotPrivateKey string) ([]byte, erro
 	}
 
 	slot, ok := ks.underlying.GetKeySlots()[slotID]
-	if !ok {
+	if !ok || slot == nil {
 		return nil, xerrors.NewTaggedf[SlotNotFoundTag]("slot '%s' not found", slotID)
 	}
 
@@ -227,7 +227,7 @@ func (ks *KeyStorage) hashSlots(masterKey []byte) []byte {
 	sort.Strings(keys)
 
 	for _, key := range keys {
-		hash.Write(keySlots[key].EncryptedKey)
+		hash.Write(keySlots[key].GetEncryptedKey())
 	}
 
 	return hash.Sum(nil)
